@@ -2,10 +2,10 @@
 """bin/coqreplay_c18.py <cases.rec> <oracle-dump> [max_cases]
 
 Cross-check of extraction for C18: recomputes, INSIDE Coq with vm_compute, the numbers the extracted
-OCaml oracle computed (ocaml/c18_oracle.ml, ORACLE_DUMP) for up to `max_cases` of the first records
-of the same record file -- three quarters tuple records (kind 1: per tuple the error class of
+OCaml oracle computed (ocaml/c18_oracle.ml, ORACLE_DUMP) for `max_cases` records spread evenly over the first 800 records
+of the same record file (those the oracle dumps) -- three quarters tuple records (kind 1: per tuple the error class of
 validate_tuple and validate_write, valid_for_write, valid_ctx_tuple, allowed_raw, lax_cond_raw,
-lax_nocond_raw; the first 60 tuples of a record), one quarter Write requests (kind 2: class of
+lax_nocond_raw; the first 25 (quick) or 60 tuples of a record), one quarter Write requests (kind 2: class of
 write_cmd, number of datastore calls, whether a DsWrite is among them, size and checksum of the
 store afterwards) -- and compares them with the dump.  Prints `COQREPLAY ok ...` or the
 mismatches; exit 1 on a mismatch."""
@@ -14,7 +14,7 @@ rec, dump = sys.argv[1], sys.argv[2]
 maxc = int(sys.argv[3]) if len(sys.argv) > 3 else 24
 V = os.path.dirname(os.path.dirname(os.path.abspath(__file__)))
 COQ = os.path.join(V, "coq")
-PER_RECORD = 60
+PER_RECORD = 25 if maxc <= 40 else 60  # tuples compared per record
 FIELDS = 7
 
 
@@ -74,9 +74,9 @@ def rtuple(t):
     return "{| rt_obj := %s; rt_rel := %s; rt_user := %s; rt_cond := %s |}" % (bs(o), bs(r), bs(u), cond)
 def skey(k): return "{| k_obj := %s; k_rel := %s; k_user := %s |}" % (bs(k[0]), bs(k[1]), bs(k[2]))
 
-k1, k2 = [], []
 n1 = maxc - maxc // 4
 n2 = maxc // 4
+raw1, raw2 = [], []
 seen = 0
 for line in open(rec):
     if line.startswith("!"): continue
@@ -85,11 +85,12 @@ for line in open(rec):
     seen += 1
     if seen > 800: break            # the oracle dumps the first 800 records only
     kind = cols[1].split(" ", 1)[0]
-    if kind == "1" and len(k1) < n1:
-        k1.append((cols[0], parse(cols[1].split())))
-    elif kind == "2" and len(k2) < n2:
-        k2.append((cols[0], parse(cols[1].split())))
-    if len(k1) >= n1 and len(k2) >= n2: break
+    (raw1 if kind == "1" else raw2 if kind == "2" else []).append((cols[0], cols[1]))
+def spread(xs, n):                  # n records evenly spaced over the dumped ones
+    if len(xs) <= n: return xs
+    return [xs[(i * len(xs)) // n] for i in range(n)]
+k1 = [(cid, parse(r.split())) for cid, r in spread(raw1, n1)]
+k2 = [(cid, parse(r.split())) for cid, r in spread(raw2, n2)]
 
 want = {}
 for line in open(dump):
